@@ -65,6 +65,42 @@ func checkC18(c *Ctx) {
 		add(math.Nextafter(f, 0))
 		add(math.Nextafter(f, math.Inf(1)))
 	}
+	// dense, oracle-free stream: every binade with many mantissas, compared with
+	// encoding/json byte for byte and re-parsed (both clauses of the property
+	// that need no model); the Ryu code has per-exponent-range paths
+	perBinade := c.N(150, 3000)
+	ndense := 0
+	for e := uint64(0); e < 2047; e++ {
+		for k := 0; k < perBinade; k++ {
+			m := r.U64() & (1<<52 - 1)
+			switch k % 8 {
+			case 0:
+				m |= 1 // odd mantissas
+			case 1:
+				m &^= 0xfff
+			case 2:
+				m = uint64(k) // tiny mantissas
+			}
+			b := e<<52 | m
+			if k%2 == 1 {
+				b |= 1 << 63
+			}
+			f := math.Float64frombits(b)
+			got, err := simdjson.VerifAppendFloat(nil, f)
+			ej, _ := json.Marshal(f)
+			ndense++
+			if err != nil || string(got) != string(ej) {
+				c.Violate("float", "output differs from encoding/json", "float-stdlib", map[string]interface{}{"lit": fmt.Sprintf("bits=%016x value=%v", b, f), "impl": string(got), "encoding_json": string(ej)})
+				continue
+			}
+			if back, perr := strconv.ParseFloat(string(got), 64); perr != nil || math.Float64bits(back) != b {
+				c.Violate("float", "printed text does not parse back to the identical float64", "float-roundtrip", map[string]interface{}{"lit": fmt.Sprintf("bits=%016x value=%v", b, f), "impl": string(got)})
+			}
+		}
+	}
+	c.Ev.Coverage.Evaluations += ndense
+	c.Ev.Coverage.Streams["dense-vs-encoding/json"] = ndense
+	c.Ev.Note(fmt.Sprintf("dense stream: %d floats (every binade x %d mantissas) compared with encoding/json and re-parsed; not counted in distinct_nontrivial", ndense, perBinade))
 	reqs := make([]string, len(bits))
 	for i, b := range bits {
 		reqs[i] = fmt.Sprintf("float %016x", b)
